@@ -70,6 +70,11 @@ fn main() {
     let mut timeout_ms: u64 = 10_000;
     let mut i = 1;
     while i < args.len() {
+        if args[i] == "--probe-diagnostics" {
+            // construct every reader kind; the library prints its look-ahead diagnostics on stderr
+            world::probe_diagnostics();
+            return;
+        }
         if args[i] == "--timeout-ms" {
             timeout_ms = args[i + 1].parse().unwrap();
             i += 1;
